@@ -70,6 +70,7 @@ def expected(cases, oracle):
                 cc = {"s1": c["c"], "s2": s, "ndim": c["ndim"], "settings": c["settings"]}
                 lines.append(dtwgen.oracle_line("bp", cc) + " %d %d" % (len(c["c"]), len(s)))
                 lines.append(dtwgen.oracle_line("dtw", cc))
+                lines.append(dtwgen.oracle_line("wps", cc))
     ans = oracle.query(lines)
     out = []
     p = 0
@@ -79,15 +80,17 @@ def expected(cases, oracle):
         assoc = [[] for _ in range(t)]
         old = 0
         ok = True
+        unique = True
         for s, m in zip(c["series"], c["mask"]):
             if not m:
                 continue
-            a, d = ans[p], ans[p + 1]
-            p += 2
-            if a.startswith("ERR") or d.startswith("ERR") or d == "inf":
+            a, d, mtx = ans[p], ans[p + 1], ans[p + 2]
+            p += 3
+            if a.startswith("ERR") or d.startswith("ERR") or d == "inf" or mtx.startswith("ERR"):
                 ok = False
                 continue
             old += int(d)
+            unique = unique and count_optimal_paths(c, s, mtx) == 1
             for tkn in a.split():
                 i, j = [int(x) for x in tkn.split(",")]
                 assoc[i].append(_pt(s[j]))
@@ -95,8 +98,38 @@ def expected(cases, oracle):
             out.append({"skip": True})
             continue
         mean = [[Fraction(sum(v[k] for v in vals), len(vals)) for k in range(nd)] for vals in assoc]
-        out.append({"mean": [[str(x) for x in row] for row in mean], "old": old})
+        out.append({"mean": [[str(x) for x in row] for row in mean], "old": old, "unique": unique})
     return out
+
+
+def count_optimal_paths(case, s, mtx):
+    """number of optimal warping paths (average vs s) in the model's accumulated-cost matrix"""
+    M = [[math.inf if t == "inf" else int(t) for t in row.split()] for row in mtx.split(" ; ")]
+    cc, nd = case["c"], case["ndim"]
+    pen = case["settings"].get("penalty") or 0
+    pen = pen * pen
+    r, c = len(cc), len(s)
+
+    def d(i, j):
+        return sum((x - y) ** 2 for x, y in zip(_pt(cc[i]), _pt(s[j])))
+    from functools import lru_cache
+
+    @lru_cache(None)
+    def cnt(i, j):
+        if i == 0 and j == 0:
+            return 1
+        if i == 0 or j == 0 or M[i][j] == math.inf:
+            return 0
+        dv = d(i - 1, j - 1)
+        n = 0
+        if M[i - 1][j - 1] + dv == M[i][j]:
+            n += cnt(i - 1, j - 1)
+        if M[i - 1][j] + pen + dv == M[i][j]:
+            n += cnt(i - 1, j)
+        if M[i][j - 1] + pen + dv == M[i][j]:
+            n += cnt(i, j - 1)
+        return n
+    return cnt(r, c)
 
 
 def objective_lines(case, avg_fr):
@@ -177,6 +210,9 @@ def judge(case, got, exp):
         return None
     if case["site"] == "py.dba":
         return {"kind": "differs-from-model-mean", "got": gotl, "model": want}
+    if exp.get("unique"):
+        # every selected series has exactly one optimal warping path: both engines must produce the same update
+        return {"kind": "c-differs-although-optimal-paths-unique", "got": gotl, "model": want}
     return {"kind": "c-differs-from-python-model", "got": gotl, "model": want, "needs_objective_check": True}
 
 
